@@ -934,6 +934,42 @@ func (c *EvalCtx) call(x *Expr) (*Val, error) {
 		default:
 			return &Val{T: "(i_ref " + a.T + ")", S: sInt, Typ: types.NewPointer(types.Typ[types.String])}, nil
 		}
+	case "unboxPtr":
+		// unboxPtr(x, alias.Type): the pointer held by interface value x, read as *alias.Type (a named struct type of the
+		// program).  Says nothing about the dynamic type: use it where the conversion is known to have happened.
+		if len(x.Args) != 2 {
+			return nil, fmt.Errorf("unboxPtr(x, pkg.Type)")
+		}
+		a, err := argv(0)
+		if err != nil {
+			return nil, err
+		}
+		if a.S != sIface {
+			return nil, fmt.Errorf("unboxPtr of non-interface %s", a)
+		}
+		tn := ""
+		switch t := x.Args[1]; {
+		case t.Op == "ident":
+			tn = t.S
+			if c.pkg != nil {
+				tn = c.pkg.Pkg.Path() + "." + t.S
+			}
+		case t.Op == "field" && len(t.Args) == 1 && t.Args[0].Op == "ident":
+			tn = c.e.specs.qualifyPattern(t.Args[0].S + "." + t.S)
+		}
+		i := strings.LastIndex(tn, ".")
+		if i < 0 {
+			return nil, fmt.Errorf("unboxPtr: bad type name")
+		}
+		p := c.e.pkgs[tn[:i]]
+		if p == nil {
+			return nil, fmt.Errorf("unboxPtr: unknown package %s", tn[:i])
+		}
+		tt, ok := p.Members[tn[i+1:]].(*ssa.Type)
+		if !ok {
+			return nil, fmt.Errorf("unboxPtr: %s is not a type", tn)
+		}
+		return &Val{T: "(i_ref " + a.T + ")", S: sInt, Typ: types.NewPointer(tt.Type())}, nil
 	case "addr":
 		// addr(name): the address of a local variable that lives in memory
 		if len(x.Args) == 1 && x.Args[0].Op == "ident" && c.fr != nil {
